@@ -479,7 +479,7 @@ func c04SQLDotted(style string, arity, n int, fns []string, raws [][]string) [][
 		from = "stream LEFT JOIN meta m ON id = m.rid"
 	}
 	sql := "SELECT " + strings.Join(sel, ", ") + " FROM " + from + " GROUP BY " + strings.Join(gb, ", ") + fmt.Sprintf(", CountingWindow(%d)", n)
-	s := streamsql.New(streamsql.WithDiscardLog())
+	s := streamsql.New(presetOpt(), streamsql.WithDiscardLog())
 	defer s.Stop()
 	if err := s.Execute(sql); err != nil {
 		return [][]string{{"exec-error", hx(err.Error())}}
@@ -571,7 +571,7 @@ func c04SQLFn(arity, n int, fns []string, raws [][]string, win string) [][]strin
 		w = fmt.Sprintf(", GLOBAL WINDOW TRIGGER WHEN count(*) >= %d", n)
 	}
 	sql := "SELECT " + strings.Join(sel, ", ") + " FROM stream GROUP BY " + strings.Join(gb, ", ") + w
-	s := streamsql.New(streamsql.WithDiscardLog())
+	s := streamsql.New(presetOpt(), streamsql.WithDiscardLog())
 	defer s.Stop()
 	if err := s.Execute(sql); err != nil {
 		return [][]string{{"exec-error", hx(err.Error())}}
@@ -791,7 +791,7 @@ func c04SQL(mode string, arity, n int, alias int, rows [][]string) [][]string {
 		win = fmt.Sprintf("GLOBAL WINDOW TRIGGER WHEN count(*) >= %d", n)
 	}
 	sql := "SELECT " + strings.Join(sel, ", ") + " FROM stream GROUP BY " + strings.Join(append(append([]string(nil), gfSQL...), win), ", ")
-	s := streamsql.New(streamsql.WithDiscardLog())
+	s := streamsql.New(presetOpt(), streamsql.WithDiscardLog())
 	defer s.Stop()
 	if err := s.Execute(sql); err != nil {
 		return [][]string{{"exec-error", hx(err.Error())}}
